@@ -162,7 +162,7 @@ pub fn dfs_variants(ctx: &Ctx) -> Vec<DfsSpec> {
     let seg = cfg.mss();
     let mut v = vec![];
     let depth = ctx.pick(10, 14);
-    let max_execs = ctx.pick(6_000, 400_000);
+    let max_execs = ctx.pick(60_000, 4_000_000);
     let transfers: Vec<(usize, usize, u32)> = vec![
         // (c2s segments, s2c segments, delay of the side that writes nothing)
         (1, 0, 0),
@@ -174,13 +174,13 @@ pub fn dfs_variants(ctx: &Ctx) -> Vec<DfsSpec> {
         (2, 1, 0),
         (1, 0, 30),
     ];
-    for (ti, (a, b, delay)) in transfers.iter().enumerate() {
+    for (a, b, delay) in transfers.iter() {
         for start in [0usize, 3, 7] {
             for small_window in [false, true] {
                 if small_window && (a + b < 2 || start == 0) {
                     continue;
                 }
-                if !ctx.quick() || (ti + start) % 2 == 0 || start == 0 {
+                {
                     let mut c = cfg.clone();
                     if small_window {
                         c.recv_cap = seg;
@@ -439,8 +439,8 @@ pub fn run(ctx: &Ctx) -> ! {
     }
     let n_dir = directed().len() as u64;
     let n_dfs = dfs_variants(ctx).len() as u64;
-    let n_walk: u64 = ctx.pick(1_500, 60_000);
-    let n_e2e: u64 = ctx.pick(240, 6_000);
+    let n_walk: u64 = ctx.pick(40_000, 1_200_000);
+    let n_e2e: u64 = ctx.pick(6_000, 120_000);
     let total = n_dir + n_dfs + n_walk + n_e2e;
     let c2 = ctx.clone();
     let mut rep: Report = vcore::run_parallel(
@@ -451,15 +451,22 @@ pub fn run(ctx: &Ctx) -> ! {
             scenario_timeout_s: ctx.pick(100.0, 850.0),
         },
         move |i| {
-            // DFS variants first: they are the long poles
+            // DFS variants first (long poles), then the directed scenarios; the
+            // rest of the index space interleaves fixture runs and walks so that
+            // a budget cut on a slow machine thins out every part alike
             if i < n_dfs {
-                run_dfs(&c2, i)
-            } else if i < n_dfs + n_dir {
-                run_directed(i - n_dfs)
-            } else if i < n_dfs + n_dir + n_e2e {
-                run_e2e(&c2, i - n_dfs - n_dir)
+                return run_dfs(&c2, i);
+            }
+            if i < n_dfs + n_dir {
+                return run_directed(i - n_dfs);
+            }
+            let j = i - n_dfs - n_dir;
+            let stride = ((n_walk + n_e2e) / n_e2e.max(1)).max(1);
+            let e2e_before = (j / stride + 1).min(n_e2e); // e2e slots at j = 0, stride, 2*stride, ...
+            if j % stride == 0 && j / stride < n_e2e {
+                run_e2e(&c2, j / stride)
             } else {
-                run_walk(&c2, i - n_dfs - n_dir - n_e2e)
+                run_walk(&c2, j - e2e_before)
             }
         },
     );
@@ -501,7 +508,7 @@ pub fn run(ctx: &Ctx) -> ! {
                 "packet duplication is never injected; one connection per scenario".into(),
                 "hook #2 (Debug dump) is used only to hash states in the DFS".into(),
             ],
-            min_distinct: ctx.pick(300, 3000),
+            min_distinct: ctx.pick(4_000, 40_000),
             required_counters: vec![
                 "dfs_states",
                 "dfs_transitions",
